@@ -232,7 +232,8 @@ def d2_quad(ctx):
         ctx.check(rule, 'integrate.py:quad#value', okv, 'val = scipy quad of f(pval, x) over [bval[0], bval[1]]', 'val=%s' % [unparse(s.value) for s in vd])
         # no observable involved -> scipy's result unchanged
         rets = [s for s in statements(f) if isinstance(s, ast.Return)]
-        plain = [s for s in rets if any(pol and 'len(derivint) == 0' in unparse(t) for t, pol in guards_of(m, s, stop=f))]
+        plain = [s for s in rets if any(pol and unparse(t) in ('len(derivint) == 0', 'not derivint', 'not pobs and (not bobs)', 'not bobs and (not pobs)', 'len(pobs) + len(bobs) == 0',
+                                                          'len(pobs) == 0 and len(bobs) == 0') for t, pol in guards_of(m, s, stop=f))]
         ctx.check(rule, 'integrate.py:quad#plain', len(plain) == 1 and unparse(plain[0].value) == 'integration_result', 'without observables scipy\'s result is returned', 'plain return: %s' % [unparse(s.value) for s in plain])
     # sibling agreement: the integral of the value and the integrals of the parameter derivatives are the same integral
     # (same weight function, same singular points, same accuracy): every call of the integrator forwards the same options
